@@ -19,3 +19,6 @@ pub mod result;
 pub mod summarize;
 
 mod util;
+
+#[cfg(feature = "verif-hooks")]
+pub mod verif_hooks;
